@@ -56,8 +56,23 @@ class Ctx:
     def dom(self, g, entry, cut=(), efilter=None, tag=None):
         k = (id(g), id(entry), tuple(id(c) for c in cut), tag)
         if k not in self._dom:
-            self._dom[k] = Dom(entry, cut, efilter)
+            d = Dom(entry, cut, efilter)
+            # reaching definitions of the same graph: lets guard facts see through local names (named conditions, reason variables)
+            d.rd_factory = lambda g=g: self._rd_of_graph(g)
+            self._dom[k] = d
         return self._dom[k]
+
+    def _rd_of_graph(self, g):
+        k = ('graph', id(g))
+        if k not in self._rd:
+            recv = 'self'
+            fn = g.fnode
+            if hasattr(fn, 'args'):
+                a = fn.args.posonlyargs + fn.args.args
+                if a and getattr(g, 'func', None) is not None and g.func.cls is not None:
+                    recv = a[0].arg
+            self._rd[k] = ReachingDefs(g, receiver=recv)
+        return self._rd[k]
 
     def loc(self, f, node):
         f = self.prog.func(f) if isinstance(f, str) else f
